@@ -155,7 +155,16 @@ CHECKS['C15'] = dict(
          'as ground rational facts. Monotone convergence on log integrands NOT decided.',
     design_ref='3.8', technique='symbolic execution of src/quadrature.py on exact rational rules + symbolic boxes; identities on canonical forms; z3 for guards',
     note='Exactness of the tabulated base rules themselves is C05; np.isclose/allclose modelled if reached.')
+CHECKS['C09'] = dict(
+    category='other',
+    text='Structural part: sobolev_space / sobolev_time / estimate_sobolev / weighted_l2 executed on real parametrised '
+         'meshes (UnitSquare, Circle, LShape; bounded history) with the Slobodeckij object replaced by a recorder returning '
+         'uninterpreted values and an uninterpreted residual: per element and neighbour the requested patch must be the '
+         'union of the two elements in one variable at the Gauss points of their intersection in the other (single-piece / '
+         'two-piece / seam), the neighbours must be the geometric ones, the symmetry shortcut must equal the direct sum, '
+         'the weighted-L2 scaling must be (h_t^{-1/2}, h_x^{-1}). Quadrature accuracy, pool path, rigid symmetries NOT decided.',
+    design_ref='3.16', technique='symbolic execution of src/error_estimator.py with recording stand-ins; identities on canonical forms; reference neighbour model',
+    note='One known finding: on a one-piece closed curve (Circle) a seam pair is integrated over the complementary arc.')
 NA['C13'] = ('an eigenvalue bound on a matrix whose entries are quadratures of Ei/exp: no fragment of it is a '
              'statement an SMT solver can decide about the real code (DESIGN 3.20)')
 NA['C08'] = 'check not built yet (work in progress; see DESIGN.md for the plan)'
-NA['C09'] = 'check not built yet (work in progress; see DESIGN.md for the plan)'
